@@ -430,9 +430,19 @@ def run_engine2(cases):
     def ask(g, c, ctx):
         args = (Subject(id="u"), Action("read"), Resource(type="doc", id="1"), Context(attrs=copy.deepcopy(ctx)))
         try:
-            if c["api"] == "sync":
-                return _decision_json(g.evaluate_sync(*args))
-            return _decision_json(loop.run_until_complete(g.evaluate_async(*args)))
+            d = g.evaluate_sync(*args) if c["api"] == "sync" else loop.run_until_complete(g.evaluate_async(*args))
+            j = _decision_json(d)
+            # the caller consumes the Decision it was handed (pops the obligations it fulfils, clears or annotates the
+            # list): the gate of the next evaluation (a cache hit in the cached cases) must not notice
+            if isinstance(d.obligations, list):
+                k = len(d.obligations) % 3
+                if k == 0:
+                    d.obligations.append({"type": "zz_caller_note"})
+                elif k == 1:
+                    d.obligations.clear()
+                else:
+                    d.obligations.pop(0)
+            return j
         except Exception as e:  # noqa: BLE001
             return ["Raise", type(e).__name__]
 
